@@ -767,8 +767,10 @@ def flatten_path(path, flatten_slashes=False):
         elif new_parts:
             new_parts.pop()
 
-    # If the filename is empty string
-    if flatten_slashes and path.endswith('/') or not len(new_parts):
+    # If the filename is empty string. A final dot segment names a
+    # directory too ("/a/b/.." is "/a/", not "/a").
+    if flatten_slashes and path.endswith('/') or not len(new_parts) \
+            or parts[-1] in ('.', '..') and new_parts[-1] != '':
         new_parts.append('')
 
     # Put back leading slash
